@@ -154,7 +154,7 @@ func (p *Prog) resolveGuardTable(c *Ctx, keep func(string) bool) (map[*types.Var
 	// count, per field and candidate mutex, the accesses at which it is held
 	score := map[*types.Var]map[*types.Var]int{}
 	for _, f := range p.Funcs {
-		if _, isInit := initPhase[f.Name]; isInit {
+		if _, isInit := p.initPhaseReason(f); isInit {
 			continue
 		}
 		for _, a := range p.fieldAccesses(f, func(v *types.Var) bool { return want[v] != "" }) {
@@ -331,6 +331,40 @@ var initPhase = map[string]string{
 	"GRPCServer.Init": "single-threaded start-up: Serve calls Init before the server is started (R-ORDER/O6 checks that order)",
 }
 
+// initPhaseReason: f is a tabled init-phase function, or an unexported helper
+// that is not taken as a value and whose every (plain, synchronous) call site
+// lies in an init-phase function.
+func (p *Prog) initPhaseReason(f *Func) (string, bool) {
+	seen := map[*Func]bool{}
+	var rec func(f *Func, depth int) (string, bool)
+	rec = func(f *Func, depth int) (string, bool) {
+		if r, ok := initPhase[f.Name]; ok {
+			return r, true
+		}
+		if depth > 3 || seen[f] || f.Lit != nil || f.Obj == nil || f.Obj.Exported() || p.takenAsValue(f) {
+			return "", false
+		}
+		seen[f] = true
+		ci := p.Calls()
+		if len(ci.callers[f]) == 0 {
+			return "", false
+		}
+		reason := ""
+		for _, cs := range ci.callers[f] {
+			if cs.Kind != "call" || cs.IsIface || cs.Dynamic {
+				return "", false
+			}
+			r, ok := rec(cs.Caller, depth+1)
+			if !ok {
+				return "", false
+			}
+			reason = r
+		}
+		return "helper called only from an init-phase function: " + reason, true
+	}
+	return rec(f, 0)
+}
+
 func ruleGuard(c *Ctx) { ruleGuardScoped(c, nil) }
 
 // ruleGuardScoped checks the guard table (restricted to fields for which
@@ -362,7 +396,7 @@ func ruleGuardScoped(c *Ctx, keep func(string) bool) {
 				c.R.Undecided("R-GUARD", f.Name, accessStr(a, fn), "access is not inside a CFG node")
 				continue
 			}
-			if reason, ok := initPhase[f.Name]; ok {
+			if reason, ok := p.initPhaseReason(f); ok {
 				c.R.Except("R-GUARD", p.Pos(a.sel), f.Name, accessStr(a, fn), reason)
 				continue
 			}
@@ -417,7 +451,7 @@ func ruleGuardScoped(c *Ctx, keep func(string) bool) {
 				continue
 			}
 			construct := "write " + fn
-			if reason, ok := initPhase[f.Name]; ok {
+			if reason, ok := p.initPhaseReason(f); ok {
 				c.R.Except("R-GUARD/write", p.Pos(a.sel), f.Name, construct, reason)
 				continue
 			}
